@@ -18,7 +18,7 @@ pub fn mon() -> Mon {
             "layouts and code points are numeric literals transcribed from DSP0236 Table 12 / clause 12, not taken from the library",
             "request_tx_rate_limit, update_rate_limmit and query_supported_interfaces are unimplemented!() stubs, not encoders (C06 says '17 implemented'); they are excluded",
         ],
-        children: no_children,
+        children: rel_child_quarter,
     }
 }
 
